@@ -217,7 +217,11 @@ def _fire(cfg, w, seed, history, ev, tracks, pre: StatePre, confirm):
         res["reusable"] = exact and not out.refresh  # reuse the object only if bit-identical
         if "C11" in props:
             if not same:
-                add("C11", "state-changed", "; ".join(canon.diff(_drop_counters(pre.snap), _drop_counters(snap))), "refused", tag)
+                a, b = _drop_counters(pre.snap), _drop_counters(snap)
+                # a difference confined to node attributes that are not registered features (e.g. the
+                # seg_id column kept by the CSV importer) is its own clause
+                only_raw = {k: v for k, v in a.items() if k != "raw_nodes"} == {k: v for k, v in b.items() if k != "raw_nodes"}
+                add("C11", "unregistered-attribute-changed" if only_raw else "state-changed", "; ".join(canon.diff(a, b)), "refused", tag)
             if out.refresh:
                 add("C11", "refresh-emitted", f"{len(out.refresh)} refresh emission(s) from a refused action", "refused", tag)
         if "C20" in props and out.refresh:
